@@ -255,7 +255,10 @@ class ObjectStream(Generic[T]):
         base_ast = self.query_ast
         if len(q_metadata) > 0:
             new_self = self.clone_with_new_ast(copy.copy(base_ast), self.item_type)
-            new_self.query_ast._q_metadata = q_metadata  # type: ignore
+            # The copied node may already carry query metadata (two `QMetaData` calls in a
+            # row) - keep what is there, the new values win.
+            old_md = getattr(base_ast, "_q_metadata", {})
+            new_self.query_ast._q_metadata = {**old_md, **q_metadata}  # type: ignore
             return new_self
         else:
             return self.clone_with_new_ast(base_ast, self.item_type)
